@@ -1,6 +1,7 @@
 import OasisModel.Handlers.Deliver
 import OasisModel.Handlers.Flow
 import Generated.HandlerFacts
+import OasisProofs.Props.C08Sound
 /-
 C08 — a failed transaction changes nothing but fee and nonce.
 
@@ -14,6 +15,9 @@ Part 2 (regenerated obligations): the control-flow skeletons of ALL transaction 
 handlers are regenerated from /repo's Go source on every run (`Generated/HandlerFacts.lean`); the
 analysis `flagged` (dirty flag per transaction layer, wrapper→layer binding, error-branch
 correlation) must report exactly the return sites listed — and justified — in `expected` below.
+The analysis is PROVED SOUND (`Props/C08Sound.lean`) against the concrete path semantics of the
+skeleton language (`OasisModel/Handlers/FlowSem.lean`); `handlers_sound` / `clean_handlers_sound`
+at the end of this file compose that proof with the kernel-checked table.
 A handler change that introduces a failing return after an un-rollbackable write, moves a write in
 front of a check, binds a wrapper to the outer tree inside `NewTransaction`, or drops a `Commit`
 changes the flagged set and breaks this file.
@@ -255,5 +259,38 @@ example : flagged 20 (.seq [.mk 1 2, .ext, .ifErr (.retErr "check") .skip, .writ
 -- write moved before the check: flagged
 example : flagged 20 (.seq [.mk 1 2, .write 1 "SetAccount", .ifErr (.retErr "w") .skip, .ext,
     .ifErr (.retErr "check") .skip, .retOk]) = some ["check"] := by decide
+
+/-! ## Part 3: the table composed with the soundness proof of the analysis -/
+
+theorem flagged_of_table (name : String) (f : Flow) (hmem : (name, f) ∈ Generated.HandlerFacts.all)
+    (sites : List String) (hexp : expectedOf name = some sites) : flagged 60 f = some sites := by
+  have h := List.all_eq_true.1 handlers_as_expected (name, f) hmem
+  simp only [rootOk, beq_iff_eq] at h
+  rw [h, hexp]
+
+/-- **Every regenerated handler root, every path** (of the skeleton's concrete semantics,
+`FlowSem.Path`): a path that ends in an ordinary error return and whose trace touches layer 0
+returns through one of the sites listed — and argued unreachable on available state — in
+`expected`. -/
+theorem handlers_sound (name : String) (f : Flow) (hmem : (name, f) ∈ Generated.HandlerFacts.all)
+    (sites : List String) (hexp : expectedOf name = some sites)
+    (outer : KV) (tr : List Act) (q : String) (chain : List String) (σ' : Cfg)
+    (hp : Path f initCfg tr (.ret (.err q) chain) σ')
+    (ht : touchesOuter { outer := outer, ovls := [] } tr = true) : ∃ p ∈ chain, p ∈ sites :=
+  C08Sound.flagged_sound_sites 60 f sites (flagged_of_table name f hmem sites hexp) outer tr q chain σ' hp ht
+
+/-- **Roots with an empty expectation** (authentication, staking, beacon, key manager, registry and
+vault messages, …): every path that ends in an ordinary error leaves layer 0 — the block state tree —
+exactly as it found it, whatever it wrote into overlays. -/
+theorem clean_handlers_sound (name : String) (f : Flow) (hmem : (name, f) ∈ Generated.HandlerFacts.all)
+    (hexp : expectedOf name = some [])
+    (outer : KV) (tr : List Act) (q : String) (chain : List String) (σ' : Cfg)
+    (hp : Path f initCfg tr (.ret (.err q) chain) σ') :
+    (exec { outer := outer, ovls := [] } tr).outer = outer :=
+  C08Sound.flagged_sound_state 60 f (flagged_of_table name f hmem [] hexp) outer tr q chain σ' hp
+
+-- not vacuous: the staking transaction root is in the table with an empty expectation
+example : ∃ f, ("staking_ExecuteTx", f) ∈ Generated.HandlerFacts.all ∧ expectedOf "staking_ExecuteTx" = some [] :=
+  ⟨Generated.HandlerFacts.staking_ExecuteTx, by simp [Generated.HandlerFacts.all], by decide⟩
 
 end OasisProofs.C08
